@@ -355,6 +355,34 @@ def observe(M, c, rnd, which=OBSERVERS):
     return out
 
 
+def scripted_histories(M):
+    """A few fixed histories in front of the seeded ones: situations that need two or three particular calls in a row (every
+    observer is folded after every call of these)."""
+    T = M.types
+
+    def G(l, t, ops):
+        return ('emplace_gate', (l, T[t], tuple(ops)), {}, f'emplace_gate({l!r}, {t}, {tuple(ops)})')
+    two = [('a', 'INPUT', ()), ('b', 'INPUT', ())]
+    return [
+        # a gate removed and rebuilt under its old label with another function (same labels, same order, same outputs)
+        ((two + [('g', 'AND', ('a', 'b')), ('h', 'OR', ('g', 'a'))], ('g', 'h'), ()),
+         [('remove_gate', ('h',), {}, "remove_gate('h')"), G('h', 'XOR', ('g', 'a')), ('mark_as_output', ('h',), {}, "mark_as_output('h')"),
+          ('remove_gate', ('h',), {}, "remove_gate('h')"), G('h', 'GT', ('a', 'g')), ('mark_as_output', ('h',), {}, "mark_as_output('h')")]),
+        # pseudo-unary and comparison gates over one gate twice, converted to the bench basis, then edited and converted again
+        ((two + [('l', 'LNOT', ('a', 'a')), ('t', 'LT', ('b', 'b')), ('r', 'RIFF', ('a', 'a')), ('q', 'LIFF', ('b', 'b')), ('o', 'OR', ('l', 't', 'r', 'q'))], ('o', 'l'), ()),
+         [('into_bench', (), {}, 'into_bench()'), ('remove_gate', ('o',), {}, "remove_gate('o')"), G('o', 'GEQ', ('l', 'r')), ('mark_as_output', ('o',), {}, "mark_as_output('o')"),
+          ('into_bench', (), {}, 'into_bench()')]),
+        # a converted comparison gate removed and re-added under its label with the operands swapped, then converted again
+        ((two + [('g', 'LT', ('b', 'a'))], ('g',), ()),
+         [('into_bench', (), {}, 'into_bench()'), ('remove_gate', ('g',), {}, "remove_gate('g')"), G('g', 'LT', ('a', 'b')), ('mark_as_output', ('g',), {}, "mark_as_output('g')"),
+          ('into_bench', (), {}, 'into_bench()'), ('order_inputs', (['b', 'a'],), {}, "order_inputs(['b', 'a'])"), ('replace_inputs', (['b'], []), {}, "replace_inputs(['b'], [])")]),
+        # inputs re-ordered and fixed, an input renamed
+        ((two + [('c', 'INPUT', ()), ('g', 'GT', ('a', 'b')), ('h', 'XOR', ('g', 'c'))], ('h', 'a'), ()),
+         [('order_inputs', (['c', 'a'],), {}, "order_inputs(['c', 'a'])"), ('rename_gate', ('a', 'z'), {}, "rename_gate('a', 'z')"), ('replace_inputs', (['c'], []), {}, "replace_inputs(['c'], [])"),
+          ('set_outputs', (['g', 'h', 'g'],), {}, "set_outputs(['g', 'h', 'g'])")]),
+    ]
+
+
 STARTS = [
     (cm.BASE_SPEC, cm.BASE_OUTPUTS, cm.BASE_BLOCKS),
     ([('a', 'INPUT', ()), ('b', 'INPUT', ())], ('a',), ()),
@@ -374,23 +402,28 @@ def fold_histories(ck: Checker, R: str, only=None, observers=(), n_hist=None):
     rnd = random.Random(20260925)
     per_method = {}
     n_calls = n_ok = 0
-    for h in range(n_hist):
-        spec, outs, blocks = STARTS[h % len(STARTS)]
+    # every scripted history twice: observed after every call, and observed at the start and after every third call only
+    scripts = [(st, sc, dense) for dense in (True, False) for st, sc in scripted_histories(M)]
+    for h in range(-len(scripts), n_hist):
+        script = scripts[h + len(scripts)][1] if h < 0 else None
+        dense = scripts[h + len(scripts)][2] if h < 0 else False
+        spec, outs, blocks = scripts[h + len(scripts)][0] if h < 0 else STARTS[h % len(STARTS)]
         # (built through the repository's own constructors: whatever the class keeps about its gates is kept consistently)
         c = M.build_circuit(spec, outs, blocks)
         counter = [0, []]     # fresh-label counter, labels of removed gates
         trail = []
+        length = len(script) if script is not None else 12
         for step in range(length + 1):
-            if observers and (step == length or obs_rnd.random() < 0.3):
+            if observers and ((script is not None and (dense or step % 3 == 0)) or step == length or (script is None and obs_rnd.random() < 0.3)):
                 for w, msg in observe(M, c, obs_rnd, observers).items():
                     if w in obs or w == 'observers':
                         rec_o = obs.setdefault(w, {'n': 0, 'problems': []})
-                        rec_o['problems'].append(f'{msg} after the history {" ; ".join(trail) or "(start state)"} (start state {h % len(STARTS)})')
+                        rec_o['problems'].append(f'{msg} after the history {" ; ".join(trail) or "(start state)"} ({"scripted history" if h < 0 else "start state " + str(h % len(STARTS))})')
                 for w in observers:
                     obs[w]['n'] += 1
             if step == length:
                 break
-            name, args, kwargs, text = gen_op(rnd, M, c, counter)
+            name, args, kwargs, text = script[step] if script is not None else gen_op(rnd, M, c, counter)
             trail.append(text)
             n_calls += 1
             before = cm.snapshot(c)
